@@ -99,8 +99,11 @@ Section ParamsTie.
     (forall u len, len <> bN b -> gen_normalize_one R rO V vadd vscale b (RVector u len) = None) /\
     gen_normalize_one R rO V vadd vscale b ROther = None.
   Proof.
-    repeat split; intros; repeat rewrite gen_normalize_is_model; cbn [normalize_one]; rewrite ?Nat.eqb_refl; try reflexivity.
-    match goal with H : ?l <> bN b |- _ => destruct (Nat.eqb_spec l (bN b)); [contradiction | reflexivity] end.
+    assert (E : forall p, gen_normalize_one R rO V vadd vscale b p = normalize_one R rO V vadd vscale b p)
+      by (intros p; apply gen_normalize_is_model).
+    repeat split; intros; rewrite !E; cbn [normalize_one]; rewrite ?Nat.eqb_refl; try reflexivity.
+    all: try (match goal with |- (if ?l =? ?n then _ else _) = None => destruct (Nat.eqb_spec l n); [contradiction | reflexivity] end).
+    all: repeat (rewrite E; cbn [normalize_one]); rewrite ?Nat.eqb_refl; reflexivity.
   Qed.
 
   (* a keyword of the caller overrides a default of the same name; other defaults stay visible *)
